@@ -136,6 +136,11 @@ func (c *IPClient) measureClockOffsetIP(ctx context.Context, mtrcs *ipClientMetr
 			c.Log.LogAttrs(ctx, slog.LevelInfo, "failed to fetch key exchange data", slog.Any("error", err))
 			return time.Time{}, 0, err
 		}
+		if len(ntskeData.Cookie[0]) > nts.MaxCookieLen {
+			// the server supplied a cookie that no request can carry
+			c.Log.LogAttrs(ctx, slog.LevelInfo, "failed to use cookie: unexpected length")
+			return time.Time{}, 0, errUnexpectedCookie
+		}
 		remoteAddr.IP = net.ParseIP(ntskeData.Server)
 		remoteAddr.Port = int(ntskeData.Port)
 	}
